@@ -268,6 +268,69 @@ func runC01(r *Report) {
 				if buf != nil && (v == buf || Strip(v) == Strip(buf)) {
 					okAll = false
 				}
+				// the buffer variable lives in a local (captured by a deferred closure): a fresh buffer
+				// must be assigned to it after the abandon goroutine was started
+				if bl, isld := buf.(*ssa.UnOp); isld && bl.Op == token.MUL {
+					if al, isal := bl.X.(*ssa.Alloc); isal {
+						// flatten the path into an instruction sequence
+						var seq []ssa.Instruction
+						for _, b := range path {
+							seq = append(seq, b.Instrs...)
+						}
+						posOf := func(in ssa.Instruction) int {
+							for i := len(seq) - 1; i >= 0; i-- {
+								if seq[i] == in {
+									return i
+								}
+							}
+							return -1
+						}
+						cur := v
+						for hop := 0; hop < 6; hop++ {
+							ld, isl := cur.(*ssa.UnOp)
+							if !isl || ld.Op != token.MUL {
+								break
+							}
+							a2, isa := ld.X.(*ssa.Alloc)
+							if !isa {
+								break
+							}
+							at := posOf(ld)
+							if a2 == al {
+								goPos := -1
+								for i, in := range seq {
+									if _, isgo := in.(*ssa.Go); isgo {
+										goPos = i
+									}
+								}
+								fresh := false
+								for i := goPos + 1; i < at && goPos >= 0; i++ {
+									if st, isst := seq[i].(*ssa.Store); isst && st.Addr == ssa.Value(al) {
+										if l2, isl2 := st.Val.(*ssa.UnOp); isl2 && l2.X == ssa.Value(al) {
+											continue
+										}
+										fresh = true
+									}
+								}
+								if !fresh {
+									okAll = false
+								}
+								break
+							}
+							// another local (e.g. the spilled result): its last assignment before the load
+							var w ssa.Value
+							for i := 0; i < at; i++ {
+								if st, isst := seq[i].(*ssa.Store); isst && st.Addr == ssa.Value(a2) {
+									w = st.Val
+								}
+							}
+							if w == nil {
+								break
+							}
+							cur = w
+						}
+					}
+				}
 			})
 			r.Ob("R01e", fn, "abandoned-batch-buffer-not-returned", fn.Pos(), okAll && n >= 1, "when a batch is abandoned its result buffer stays with the drain goroutine (the reader may still write late replies into it); the caller must get a fresh buffer")
 			// and the drain goroutine recycles that buffer only after the completion receive
@@ -297,6 +360,10 @@ func runC01(r *Report) {
 			}
 		}
 	}
+
+	// the queue's slots are reset when they are handed to the reader (shared with C02): otherwise a
+	// slot last used by a batch makes the writer re-send the old batch for the next single command
+	slotResetRule(r, "R01e")
 
 	// R01g synchronous fast path
 	nSync := 0
@@ -467,4 +534,33 @@ func goroutineReceives(g *ssa.Go, arg ssa.Value) bool {
 		}
 	}
 	return false
+}
+
+// slotResetRule: the ring frees a slot (mark=0) only together with clearing one/multi/resps.
+func slotResetRule(r *Report, rule string) {
+	n := 0
+	for _, fn := range r.P.Funcs("rueidis.(*ring).") {
+		for _, a := range FieldAccessesIn(fn, nodeT, "mark") {
+			st, ok := a.Instr.(*ssa.Store)
+			if !ok {
+				continue
+			}
+			if k, isc := ConstInt(st.Val); !isc || k != 0 {
+				continue
+			}
+			n++
+			cleared := 0
+			for _, in := range a.Block.Instrs {
+				if s2, ok := in.(*ssa.Store); ok {
+					for _, f := range []string{"one", "multi", "resps"} {
+						if IsFieldAddr(s2.Addr, nodeT, f) {
+							cleared++
+						}
+					}
+				}
+			}
+			r.ObSite(rule, a.Site, "freed-slot-is-cleared", cleared == 3, "freeing a queue slot clears one/multi/resps: PutOne only writes `one` and PutMulti only `multi`/`resps`, so a stale field would be written to the wire and filled with another call's replies")
+		}
+	}
+	r.Anchor(rule, "slot release in the ring", n >= 1)
 }
